@@ -44,8 +44,52 @@ fn coq_str_list(l: &[String]) -> String {
     format!("[{}]", parts.join("; "))
 }
 
+
+/// `impl From<ty> for Command { fn from(..) }` in `file`
+fn from_impl<'a>(file: &'a syn::File, ty: &str) -> Option<&'a syn::ImplItemFn> {
+    file.items.iter().find_map(|i| match i {
+        syn::Item::Impl(imp)
+            if type_name(&imp.self_ty) == "Command" && imp.trait_.as_ref().is_some_and(|(_, p, _)| squash(p) == format!("From<{ty}>")) =>
+        {
+            imp.items.iter().find_map(|ii| match ii {
+                syn::ImplItem::Fn(f) if f.sig.ident == "from" => Some(f),
+                _ => None,
+            })
+        }
+        _ => None,
+    })
+}
+
+/// the argv builders, statement by statement (imp.rs): the whole body of `fn from` becomes a Gallina function of
+/// the command struct's fields that returns the argv (program name first)
+fn emit_argv_builders(file: &syn::File, which: &[(&str, &str, &str)], v: &mut String, out: &mut Out) {
+    let cfg = crate::imp::Config {
+        methods: vec![("to_string_lossy", "{r}"), ("clone", "{r}")],
+        mutators: vec![("args", "({r} ++ {0})"), ("arg", "({r} ++ [{0}])")],
+        state_calls: vec![],
+        calls: vec![("Command::new", "[{0}]"), ("Self::new", "[{0}]"), ("String::from", "{0}")],
+        variants: vec![("Always", "PullAlways"), ("IfNotPresent", "PullIfNotPresent"), ("Never", "PullNever"), ("Id", "BpId"), ("Path", "BpPath")],
+        eq: "beq",
+        take_default: "(@nil N)",
+        display: vec![("port", "(show_port {v})"), ("docker_port_command_port", "(show_port {v})")],
+    };
+    for (ty, name, params) in which {
+        let Some(f) = from_impl(file, ty) else {
+            out.miss(format!("libcnb-test: impl From<{ty}> for Command"));
+            continue;
+        };
+        let mut tr = crate::imp::Tr::new(&cfg);
+        let mut scope: Vec<String> = vec![];
+        let term = tr.stmts(&f.block.stmts, &mut scope, &["command".to_string()]);
+        for m in &tr.missing {
+            out.miss(format!("libcnb-test: From<{ty}> for Command: {m}"));
+        }
+        let _ = writeln!(v, "(* impl From<{ty}> for Command *)\nDefinition {name} {params} : list bytes :=\n{}.", crate::imp::indent(&term, 2));
+    }
+}
+
 pub fn translate(repo: &Path, out: &mut Out) {
-    let mut v = String::from("From Coq Require Import List NArith.\nImport ListNotations.\nOpen Scope N_scope.\n");
+    let mut v = String::from("From Coq Require Import List NArith.\nFrom LV Require Import Base ImpPrims Argv ArgvTypes.\nImport ListNotations.\nOpen Scope N_scope.\n");
     let base = repo.join("libcnb-test/src");
     match parse_file(&base.join("docker.rs")) {
         Some(file) => {
@@ -80,6 +124,20 @@ pub fn translate(repo: &Path, out: &mut Out) {
                     None => out.miss(format!("docker.rs: impl From<{ty}> for Command")),
                 }
             }
+            emit_argv_builders(
+                &file,
+                &[
+                    ("DockerRunCommand", "gen_docker_run_argv", "(docker_run_command_container_name : bytes) (docker_run_command_detach docker_run_command_remove : bool) (docker_run_command_platform docker_run_command_entrypoint : option bytes) (docker_run_command_env : list (bytes * bytes)) (docker_run_command_exposed_ports : list N) (docker_run_command_bind_mounts : list (bytes * bytes)) (docker_run_command_image_name : bytes) (docker_run_command_command : option (list bytes))"),
+                    ("DockerExecCommand", "gen_docker_exec_argv", "(docker_exec_command_container_name : bytes) (docker_exec_command_command : list bytes)"),
+                    ("DockerLogsCommand", "gen_docker_logs_argv", "(docker_logs_command_container_name : bytes) (docker_logs_command_follow : bool)"),
+                    ("DockerPortCommand", "gen_docker_port_argv", "(docker_port_command_container_name : bytes) (docker_port_command_port : N)"),
+                    ("DockerRemoveContainerCommand", "gen_docker_rm_argv", "(docker_remove_container_command_container_name : bytes) (docker_remove_container_command_force : bool)"),
+                    ("DockerRemoveImageCommand", "gen_docker_rmi_argv", "(docker_remove_image_command_image_name : bytes) (docker_remove_image_command_force : bool)"),
+                    ("DockerRemoveVolumeCommand", "gen_docker_volume_rm_argv", "(docker_remove_volume_command_volume_names : list bytes) (docker_remove_volume_command_force : bool)"),
+                ],
+                &mut v,
+                out,
+            );
             // new() defaults of the removal commands: force = true
             for ty in ["DockerRemoveContainerCommand", "DockerRemoveImageCommand", "DockerRemoveVolumeCommand"] {
                 match find_impl_fn(&file, ty, None, "new") {
@@ -95,6 +153,15 @@ pub fn translate(repo: &Path, out: &mut Out) {
     }
     match parse_file(&base.join("pack.rs")) {
         Some(file) => {
+            emit_argv_builders(
+                &file,
+                &[
+                    ("PackBuildCommand", "gen_pack_build_argv", "(pack_build_command_image_name pack_build_command_builder pack_build_command_build_cache_volume_name pack_build_command_launch_cache_volume_name pack_build_command_path : bytes) (pack_build_command_pull_policy : pull_policy) (pack_build_command_buildpacks : list bp_ref) (pack_build_command_env : list (bytes * bytes)) (pack_build_command_trust_builder pack_build_command_trust_extra_buildpacks : bool)"),
+                    ("PackSbomDownloadCommand", "gen_pack_sbom_argv", "(pack_command_image_name : bytes) (pack_command_output_dir : option bytes)"),
+                ],
+                &mut v,
+                out,
+            );
             let f = file.items.iter().find_map(|i| match i {
                 syn::Item::Impl(imp)
                     if type_name(&imp.self_ty) == "Command"
